@@ -500,6 +500,13 @@ class SSHChannel(Generic[AnyStr], SSHPacketHandler):
                 session = cast(SSHSession[AnyStr], result)
 
             if not self._conn:
+                # The session will never be started. If it already
+                # holds a connection to forward to, release that.
+                close_session = getattr(session, 'close', None)
+
+                if callable(close_session):
+                    close_session()
+
                 raise ChannelOpenError(OPEN_CONNECT_FAILED,
                                        'SSH connection closed')
 
